@@ -4,6 +4,7 @@ from vplib.api import Case, ok, err
 from vplib import core
 from oracle import xrefspec as X
 from oracle.pdfwriter import Obj, Revision, write_file
+from oracle.canon import canon
 
 ID = "C17"
 LEVEL = "proof"
@@ -12,9 +13,10 @@ COQ_TARGETS = ["Properties/C17", "Pins/C17"]
 THEOREMS = [("PdfV.Properties.C17", n) for n in
             ["C17_marker_first_occurrence", "C17_header_no_border", "C17_locate_start", "C17_locate_xref", "C17_load_invariant",
              "C17_resolve_invariant", "C17_scan_invariant", "C17_full_statement_proved", "C17_resolve_no_panic",
+             "C17_lexer_position", "C17_parser_position", "C17_xref_at_prefix", "C17_obj_at_prefix", "C17_tables_invariant",
              "C17_resolve_overflow_refuted_before_fix", "C17_scan_refuted_before_fix"]]
 ANCHORS = ["backend.rs", "xref.rs", "parse_xref.rs", "lexer/mod.rs"]
-MODES = ["xr_locate", "xr_walk"]
+MODES = ["xr_locate", "xr_walk", "xr_open"]
 TRUSTED_BASE = ["coqc 8.16.1 kernel (vm_compute for the generated HEADER lemma and the witnesses; no native_compute)",
                 "gen/extract_xref.py (HEADER, search window, startxref keyword, lexer byte classes from the Rust source)",
                 "Extraction + ExtrOcamlBasic, ocamlfind ocamlopt 4.13.1, coq/driver/main.ml",
@@ -182,6 +184,28 @@ def generate(rng, tier):
         yield Case("xr_locate", [bytes(b)], kind="malformed", tags=["locate-malformed"])
     for c in overflow_cases():
         yield c
+    for c in table_open_cases(rng, quick):
+        yield c
+
+
+def table_open_cases(rng, quick):
+    """classic-table files behind a prefix, through the composed model (load + resolve_ref + the shared parser:
+    C17_tables_invariant) and against what the writer wrote: the same values as without the prefix"""
+    for i in range(8 if quick else 250):
+        k = rng.randint(1, 4)
+        H = X.gen_history(rng, n_updates=k, max_num=rng.randint(1, 14), force=["table"] * k)
+        for r in H.revisions:
+            r.eol = rng.choice(X.EOLS)
+        data, info = X.render(H)
+        vals, size = X.expected_values(H, info)
+        tr = dict(H.revisions[-1].trailer)
+        if len(H.revisions) > 1:
+            tr["Prev"] = info["startxrefs"][-2]
+        tr["Size"] = info["revisions"][-1]["size"]
+        exp = [(b"!" if v in (b"!FreeObject", b"!NullRef") else v) for v in vals] + [canon(tr)]
+        for tag, pre in prefixes(rng, 1019, True):
+            t1, t2 = tag.split(" ")
+            yield Case("xr_open", [b"s", b"%d" % size, pre + data], expect=ok(*exp), tags=["open-prefixed", t1, t2])
 
 
 def overflow_file(target=2 ** 64 - 1):
